@@ -697,8 +697,10 @@ func (s *sender) handleRcvdSegment(seg *segment) {
 	rtx := s.checkDuplicateAck(seg)
 
 	// Stash away the current window size.
-	// 存放当前窗口大小。
-	s.sndWnd = seg.window
+	// 存放当前窗口大小。迟到的旧ACK(确认号小于sndUna)带的是过时的窗口,不能采用(RFC 793 SND.WL2)
+	if !seg.ackNumber.LessThan(s.sndUna) {
+		s.sndWnd = seg.window
+	}
 
 	// Ignore ack if it doesn't acknowledge any new data.
 	// 获取确认号
